@@ -396,6 +396,45 @@ def check_string_positions(chk, tus, rule='R11.7'):
                        % (label, r_[:80]), 'wasmCWriteModuleFunctionExportsArray:string-literal')
 
 
+def check_export_table_length(chk, tus, rule='R11.14'):
+    """the function-export table is an array of declared length: it must have room for every row written plus the {NULL,NULL} terminator
+    that the table walks (thread-spawn's lookup of wasi_thread_start, host lookups by name) stop at - an array one element short
+    silently drops the terminator (C89 6.5.7: excess initialisers are a constraint violation compilers only warn about) and every walk
+    for a name that is not exported reads past the array.  Modules: one function exported under two names, an imported function
+    re-exported, exports of other kinds in between, no function export at all"""
+    it = c06.make(tus)
+    F, MEM = c06.KIND_FUNC, 2
+    cases = [
+        ('two names for one function', dict(functions=[{'functionTypeIndex': 0, 'exportName': 'a'}, 0], exports=[('a', F, 0), ('b', F, 0)])),
+        ('re-exported import', dict(func_imports=[('env', 'imp', 0)], functions=[{'functionTypeIndex': 0, 'exportName': 'run'}],
+                                    exports=[('again', F, 0), ('run', F, 1)])),
+        ('other kinds in between', dict(functions=[{'functionTypeIndex': 0, 'exportName': 'x'}, {'functionTypeIndex': 0, 'exportName': 'y'}],
+                                        memories=[(1, 2, False)], exports=[('x', F, 0), ('mem', MEM, 0), ('y', F, 1)])),
+        ('one export', dict(functions=[0, {'functionTypeIndex': 0, 'exportName': 'only'}], exports=[('only', F, 1)])),
+        ('no function export', dict(functions=[0], memories=[(1, 2, False)], exports=[('mem', MEM, 0)])),
+    ]
+    n = 0
+    for label, kw in cases:
+        mk = lambda kw=kw: M.build(it, types=[([], [])], **kw)
+        text = c06.inits_text(it, mk, raw=True)
+        m = re.search(r'(?s)\bwasmFuncExport\s+\w*FuncExports\s*\[\s*(\d*)\s*\]\s*=\s*\{(.*?)\n\};', text)
+        nfe = sum(1 for e in kw['exports'] if e[1] == F)
+        if m is None:
+            chk.require(nfe == 0 or 'FuncExports' not in text, 'FuncExports table not recognised (%s)' % label)
+            continue
+        rows = re.findall(r'\{[^{}]*\}', m.group(2))
+        last_null = bool(rows) and re.sub(r'[\s()]|void\*', '', rows[-1]) in ('{NULL,NULL}', '{0,0}')
+        declared = int(m.group(1)) if m.group(1) else len(rows)
+        n += 1
+        chk.expect(declared == len(rows) and last_null and len(rows) == nfe + 1, rule, 'export-table-length[%s]' % label,
+                   'module with %d function exports (%s): the export table is declared with %d elements and initialised with %d rows (%s): '
+                   'expected one row per function export and the terminator, all inside the array - with fewer elements than rows the '
+                   'terminator is dropped and a lookup of a name that is not exported reads past the array'
+                   % (nfe, label, declared, len(rows), 'terminated by {NULL,NULL}' if last_null else 'NOT terminated by {NULL,NULL}'),
+                   'wasmCWriteModuleFunctionExportsArray:length')
+    return n
+
+
 def _literal_pieces(s):
     """[contents of each piece] of a string literal written as adjacent pieces ("ab" "cd", which C concatenates after decoding the
     escapes of each piece - the way to end a hex escape before a hex digit); None if s is not of that form"""
@@ -718,6 +757,8 @@ def run(chk):
         raise AnalysisBroken('templates whose freedom from undefined behaviour is not recognised by the type-based rules and not refuted on '
                              'the boundary grid: %s' % ' | '.join(undecided[:4]))
     check_string_positions(chk, tus)
+    check_export_table_length(chk, tus)
+    chk.floor('R11.14', 4)
     chk.floor('R11.3', 8)
     chk.floor('R11.4', 16)
     chk.floor('R11.5', 80)
